@@ -80,7 +80,7 @@ package fatigue
 
 //@ func (*Fatigue).Apply
 //@   refines model.Bias.Apply
-//@   property C17 C09 C07
+//@   property C17 C09 C07 C01
 //@   requires forall i int, j int :: 0 <= i && i < j && j < len(current.Criteria) ==> current.Criteria[i].Id != current.Criteria[j].Id
 //@   ensures [untouched] result.DMP.Criteria == current.Criteria && result.DMP.MethodParameters == current.MethodParameters
 //@   ensures [report_is_state] typeis(result.Props, FatigueResult)
